@@ -22,7 +22,39 @@ for sd in sorted(os.listdir(os.path.join(V, 'seeded'))):
     if m.get('obsolete'):
         caught = ['obsolete: ' + m['obsolete']]
     rows.append('| %s | %s | %s | %s |' % (sd, ', '.join(files), note, '<br>'.join(caught) if caught else '**missed** (no unit covers this code yet)'))
+# summary per round: own = caught by the check of the seed's own property
+import re
+summ = {}
+for sd in sorted(os.listdir(os.path.join(V, 'seeded'))):
+    d = os.path.join(V, 'seeded', sd)
+    if not os.path.exists(os.path.join(d, 'meta.json')):
+        continue
+    m = json.load(open(os.path.join(d, 'meta.json')))
+    if m.get('obsolete'):
+        continue
+    r = json.load(open(os.path.join(d, 'result.json'))) if os.path.exists(os.path.join(d, 'result.json')) else {}
+    rnd = (re.search(r'_r(\d)_', sd) or [None, '1'])[1]
+    own = m['property']
+    if r.get(own, {}).get('exit') == 1:
+        k = 'own'
+    elif any(x.get('exit') == 1 for x in r.values()):
+        k = 'other'
+    elif any(x.get('exit') == 2 for x in r.values()):
+        k = 'inconclusive'
+    else:
+        k = 'missed'
+    summ.setdefault(rnd, {}).setdefault(k, []).append(sd)
+lines = ['| round | seeds | caught by the property\'s own check | caught only by another property\'s check | inconclusive (exit 2) | missed |', '|---|---|---|---|---|---|']
+for rnd in sorted(summ):
+    x = summ[rnd]
+    n = sum(len(v) for v in x.values())
+    lines.append('| %s | %d | %d | %d%s | %d%s | %d%s |' % (rnd, n, len(x.get('own', [])), len(x.get('other', [])),
+                 (' (' + ', '.join(x['other']) + ')') if x.get('other') else '', len(x.get('inconclusive', [])),
+                 (' (' + ', '.join(x['inconclusive']) + ')') if x.get('inconclusive') else '', len(x.get('missed', [])),
+                 (' (' + ', '.join(x['missed']) + ')') if x.get('missed') else ''))
+SUMMARY = '\n'.join(lines)
+open(os.path.join(V, 'seeded', 'SUMMARY.md'), 'w').write(SUMMARY + '\n')
 with open(os.path.join(V, 'seeded', 'README.md'), 'w') as f:
-    f.write('# Seeded breaking changes and the checks that catch them\n\nEach change compiles, passes the whole existing test suite and breaks the named property; confirmed by `tools/seed_import.py` (see meta.json). Results from `tools/seed_run.py` (check run on a scratch copy of /repo with the patch applied).\n\n| seed | files | what it breaks / needs | caught by |\n|---|---|---|---|\n')
+    f.write('# Seeded breaking changes and the checks that catch them\n\nEach change compiles, passes the whole existing test suite and breaks the named property; confirmed by `tools/seed_import.py` (see meta.json). Results from `tools/seed_run.py` (check run on a scratch copy of /repo with the patch applied).\n\n' + SUMMARY + '\n\n| seed | files | what it breaks / needs | caught by |\n|---|---|---|---|\n')
     f.write('\n'.join(rows) + '\n')
 print(len(rows), 'seeds')
